@@ -1,5 +1,6 @@
 mod backoff;
 mod topic;
+mod wire;
 mod util;
 
 fn main() {
@@ -12,6 +13,7 @@ fn main() {
     match args[0].as_str() {
         "backoff" => backoff::main(&args[1..]),
         "topic" => topic::main(&args[1..]),
+        "wire" => wire::main(&args[1..]),
         other => {
             eprintln!("unknown engine {other}");
             std::process::exit(2);
